@@ -136,6 +136,10 @@ func (c Commitments) GetCreatorAccount() sdk.AccAddress {
 }
 
 func (vesting *VestingTokens) VestedSoFar(ctx sdk.Context) math.Int {
+	// a schedule of zero blocks (permitted by the vesting info validation) has elapsed at once
+	if vesting.NumBlocks == 0 {
+		return vesting.TotalAmount
+	}
 	totalBlocks := ctx.BlockHeight() - vesting.StartBlock
 	if totalBlocks > vesting.NumBlocks {
 		totalBlocks = vesting.NumBlocks
